@@ -5,7 +5,9 @@ three assignments of the two formats to the layout, each link and each
 sublayout (all traditional, all DSSE, random mix); the implementation's
 outcomes must be equal across assignments and equal to the model's.
 (b) run / record / sign / match-products through the library in both formats
-(see also C18 for the command line)."""
+(see also C18 for the command line);
+(c) histories of verify / sign / append / edit / reload on one in-memory object
+per format (c09.history_case): results must be equal at every step."""
 import copy
 import json
 import os
@@ -173,6 +175,9 @@ def shard(seed, idx, n, tier):
         one_case(rng, res, FAMILIES[(idx + j) % len(FAMILIES)])
     for _ in range(max(1, n // 4)):
         lib_roundtrip(rng, res)
+    from harness.props import c09
+    for _ in range(n):
+        c09.history_case(rng.randrange(1 << 40), res, "C14")
     return res
 
 
@@ -182,6 +187,9 @@ def run(tier, seed):
 
 
 def replay(case):
+    if case.get("op") == "history":
+        from harness.props import c09
+        return c09.replay(case)
     if case.get("op") == "lib_roundtrip":
         res = core.Result()
         lib_roundtrip(random.Random(0), res)
